@@ -7,6 +7,7 @@ from immutables import Map
 from nrel.hive.reporting.handler.stats_handler import StatsHandler
 from nrel.hive.reporting.handler.time_step_stats_handler import TimeStepStatsHandler
 from nrel.hive.reporting.report_type import ReportType
+from nrel.hive.util import verif_hooks
 
 if TYPE_CHECKING:
     from nrel.hive.model.membership import MembershipId
@@ -58,6 +59,8 @@ class Reporter:
         :return:
         """
         self.reports.append(report)
+        if verif_hooks.ENABLED:
+            verif_hooks.emit("report", report=report)
 
     def get_summary_stats(self, rp: RunnerPayload) -> Optional[Dict]:
         """
